@@ -121,6 +121,14 @@ CHECKS = {
               "layout with mixed classes per the harness' own layout tables, context list, 'other' without letters/digits), and the "
               "counters must change by exactly the tallies of those segments. Exploration."),
         design='4/C05'),
+    'C19': dict(
+        technique="Hypothesis-generated training files (bytes) against a reference line reader (differential), metamorphic relation plain == $HEX == count-prefixed on rulesets produced by the real trainer, equality of the three passes, marker-based leak detection",
+        text=("Training files are generated as bytes in five encodings with plain/hex/count-prefixed renderings, CRLF, look-alikes, "
+              "spaces and junk lines (tabs, control and separator characters, undecodable bytes, bad hex, missing passwords): the real "
+              "reader's yielded sequence and counters must equal a reference reader's; the real trainer run on the three equivalent "
+              "renderings must write byte-identical rulesets (apart from uuid/filename), its three passes must see the same sequence, "
+              "and a marker carried by every junk line must not appear in any ruleset file. Exploration."),
+        design='4/C19'),
 }
 
 NOT_YET = "check not built yet in this round (design exists in DESIGN.md section 4); not claimed until it runs"
